@@ -30,7 +30,7 @@ func init() {
 			Req: []string{"ok(oidc.CheckIssuer($r0, $v.Issuer))", "ok(oidc.CheckExpiration($r0, $v.Offset))", "ok(oidc.CheckSignature(_, _, _, $r0, $v.SupportedSignAlgs, $v.KeySet))"}},
 		{ID: "E8.access-token-verifier-per-request-issuer", Fn: "op.(*Provider).AccessTokenVerifier", P: []string{"o", "ctx"}, Kind: "ret any", Pat: "ret(op.NewAccessTokenVerifier(op.IssuerFromContext($ctx), $o.accessTokenKeySet, __))", Max: 1, Only: true},
 		{ID: "E8.access-token-verifier-per-request-issuer.only", Fn: "op.(*Provider).AccessTokenVerifier", Kind: "ret any", Max: 1},
-		// introspection: the Active store is the only one and needs lookup + storage success (caller binding is in C05)
+		// introspection: the Active store is the only one and needs lookup + storage success (caller authentication: the C05 obligations E1.introspect.* and the authentication guarantees are re-evaluated here as E1.introspect.caller.*)
 		{ID: "E1.introspect.active.provider", Fn: "op.Introspect", Kind: "store", Pat: "store($resp.Active, true)", Max: 1,
 			Req: []string{"tokenResolved($tokenID, $subject, $token)", "ok(_.SetIntrospectionFromToken(_, $resp, $tokenID, $subject, _))"}},
 		{ID: "E1.introspect.active.legacy-server", Fn: "op.(*LegacyServer).Introspect", P: []string{"s", "ctx", "r"}, Kind: "store", Pat: "store($resp.Active, true)", Max: 1,
@@ -66,7 +66,7 @@ func init() {
 		Technique:   "static analysis: assume/guarantee must-facts dataflow over go/cfg; who-may-write table for IntrospectionResponse.Active",
 		Rules:       []string{"E1"},
 		Run: func(c *Ctx) {
-			RunE1(c, "C08", obs)
+			RunE1(c, "C08", append(append([]Ob{}, obs...), sharedObs["C08"]...))
 			RunFieldWriters(c, "E6.active-writers", "oidc", "IntrospectionResponse", "Active", []string{"op.Introspect", "op.(*LegacyServer).Introspect"}, "Active=true must stay behind the introspection obligations")
 		},
 	})
